@@ -16,6 +16,7 @@
 (* permissive than the property:                                           *)
 (*   GuardOnParsedPath   = FALSE : skipper matches on RequestURI  (F2)     *)
 (*   ExactlyOneSignature = FALSE : "secure signature count > 0"   (F12)    *)
+(*   ZeroExpNeverExpires = TRUE  : exp = 0 is not checked against the clock *)
 (* The prescriptive configuration (both TRUE) satisfies the invariants;    *)
 (* the cases are generated from the descriptive one.                      *)
 (***************************************************************************)
@@ -24,8 +25,10 @@ EXTENDS Naturals, Sequences, FiniteSets, TLC, Json
 CONSTANTS
     GuardOnParsedPath,
     ExactlyOneSignature,
-    TargetMode,      \* "all" | "core"
-    TokenDefects,    \* 0 = core token set, n>0 = every token with at most n deviations from the valid one
+    ZeroExpNeverExpires, \* TRUE = the code: jwx treats exp = 0 (1970-01-01T00:00:00Z) as "no exp claim" and skips the expiry check
+    TargetMode,      \* "all" | "core" | "one"
+    TokenDefects,    \* 0 = core token set, 1/2 = every token with at most n deviations from the valid one,
+                     \* 3 = the complete product of the time claims (nbf x iat x exp) of an otherwise valid token
     Gen              \* TRUE: print every terminal state (case + expected verdict)
 
 None == "none"
@@ -154,7 +157,9 @@ CoreTargets == {
     [form |-> "origin",   variant |-> "query", route |-> "iroot"],
     [form |-> "origin",   variant |-> "plain", route |-> "status"],
     [form |-> "origin",   variant |-> "plain", route |-> "public"] }
-Targets == {t \in (IF TargetMode = "all" THEN AllTargets ELSE CoreTargets) :
+Targets == {t \in (CASE TargetMode = "all" -> AllTargets
+                      [] TargetMode = "one" -> {[form |-> "origin", variant |-> "plain", route |-> "internal"]}
+                      [] OTHER -> CoreTargets) :
                 t.route = None \/ Applicable(t.variant, t.route)}
 
 TargetSeq(t) ==
@@ -162,13 +167,85 @@ TargetSeq(t) ==
       [] t.form \in {"asterisk", "asterisk-get"} -> <<"*">>
       [] OTHER -> FormTarget(t.form, Variant(t.variant, Canon(t.route)))
 
-Listeners == {[cfg |-> "same", port |-> "internal"], [cfg |-> "diff", port |-> "internal"], [cfg |-> "diff", port |-> "public"]}
+Listeners == IF TargetMode = "one" THEN {[cfg |-> "diff", port |-> "internal"]}
+             ELSE {[cfg |-> "same", port |-> "internal"], [cfg |-> "diff", port |-> "internal"], [cfg |-> "diff", port |-> "public"]}
 RoutesOn(l) == IF l.cfg = "same" THEN RouteNames
                ELSE IF l.port = "internal" THEN InternalBound ELSE RouteNames \ InternalBound
 
 (***************************************************************************)
 (* Tokens: a record of attributes; Default is a valid token.               *)
+(*                                                                         *)
+(* Time claims.  Scale is an ascending sequence of durations (label, exact *)
+(* value in seconds as decimal text - TLC integers are 32 bit, so the spec *)
+(* only uses the ORDER; the concretiser computes with the exact values).   *)
+(*   nbf = now - Scale[nbf],  iat = nbf - Scale[iat],  exp = nbf + Scale[life]  *)
+(* ("abs-..." = that absolute NumericDate; "NOW" = seconds since the epoch) *)
+(* The bound of the code is 1470 min = 88200 s, the documentation says 24 h.*)
 (***************************************************************************)
+Scale == <<
+    [l |-> "-1e10",      v |-> "-10000000000"],
+    [l |-> "-1h",        v |-> "-3600"],
+    [l |-> "0",          v |-> "0"],
+    [l |-> "1s",         v |-> "1"],
+    [l |-> "60s",        v |-> "60"],
+    [l |-> "60s+half",   v |-> "60.5"],
+    [l |-> "1h",         v |-> "3600"],
+    [l |-> "1h+half",    v |-> "3600.5"],
+    [l |-> "2h",         v |-> "7200"],
+    [l |-> "bound-1h",   v |-> "84600"],
+    [l |-> "24h",        v |-> "86400"],
+    [l |-> "bound-1s",   v |-> "88199"],
+    [l |-> "bound",      v |-> "88200"],
+    [l |-> "bound+half", v |-> "88200.5"],
+    [l |-> "bound+1s",   v |-> "88201"],
+    [l |-> "48h",        v |-> "172800"],
+    [l |-> "1y",         v |-> "31556952"],
+    [l |-> "epoch",      v |-> "NOW"],
+    [l |-> "100y",       v |-> "3155695200"],
+    [l |-> "2^63ns-",    v |-> "9223372036"],          \* just below / above 2^63 nanoseconds (time.Duration)
+    [l |-> "2^63ns+",    v |-> "9223372037"],
+    [l |-> "1e10",       v |-> "10000000000"],
+    [l |-> "2^64ns-",    v |-> "18446744073"],
+    [l |-> "2^64ns+",    v |-> "18446744074"],
+    [l |-> "1000y",      v |-> "31556952000"],
+    [l |-> "1e12",       v |-> "1000000000000"],
+    [l |-> "2^53",       v |-> "9007199254740992"],
+    [l |-> "abs-2^63-1", v |-> "9223372036854775807"],
+    [l |-> "abs-2^63",   v |-> "9223372036854775808"],
+    [l |-> "abs-1e30",   v |-> "1e30"] >>
+Rank(l) == CHOOSE i \in 1..Len(Scale) : Scale[i].l = l
+Val(l) == Scale[Rank(l)].v
+Base(t) == IF t.nbf = "missing" THEN "60s" ELSE t.nbf          \* without nbf the concretiser still places exp relative to now - 60 s
+\* str-: exp is a JSON string holding the number; abs-0 / abs-0.5: exp is the epoch itself (ranked like a very negative lifetime)
+\* rfc-: exp is a JSON string holding an RFC 3339 timestamp (jwx accepts that, too)
+LifeLabel(t) == CASE t.life \in {"str-1h", "rfc-1h"} -> "1h" [] t.life \in {"str-1e10", "rfc-1e10"} -> "1e10"
+                  [] t.life \in {"abs-0", "abs-0.5"} -> "-1e10" [] OTHER -> t.life
+ExpAbsZero(t) == t.life \in {"abs-0", "abs-0.5"}
+ExpIsEpoch(t) == ExpAbsZero(t) \/ (Base(t) = "epoch" /\ t.life = "0")     \* the NumericDate exp is 0 after truncation
+\* the mathematical truth about the claims
+NbfReached(t) == t.nbf = "missing" \/ Rank(t.nbf) >= Rank("0")                       \* nbf <= now
+NotExpired(t) == t.life = "missing" \/ (~ExpAbsZero(t) /\ Rank(LifeLabel(t)) > Rank(Base(t)))   \* now < exp
+TooLong(t) == t.life # "missing" /\ ~ExpAbsZero(t) /\ Rank(LifeLabel(t)) >= Rank("bound+1s")   \* exp - nbf exceeds the bound
+\* jwx parseNumericString: anything but digits and "." (a minus sign, an exponent) is tried as RFC 3339 and refused, so a
+\* NEGATIVE NumericDate (a date before 1970) makes the whole token unparsable.  Which claims are negative (now ~ 1.8e9 s):
+BeforeEpoch(t) == Rank(Base(t)) > Rank("epoch")          \* the start of the window lies before 1970
+NegativeDate(t) ==
+    \/ t.nbf # "missing" /\ BeforeEpoch(t)
+    \/ t.iat \in {"0", "1h", "48h", "later"} /\ BeforeEpoch(t)
+    \/ t.iat = "1e10" \/ (t.iat \in {"1h", "48h"} /\ Base(t) = "epoch")
+    \/ t.life = "-1e10" \/ (t.life = "-1h" /\ Rank(Base(t)) >= Rank("epoch"))
+    \/ BeforeEpoch(t) /\ t.life \notin {"missing", "abs-0", "abs-0.5", "abs-2^63-1", "abs-2^63", "abs-1e30"}
+                      /\ Rank(LifeLabel(t)) <= Rank("100y")
+\* the values handed to the concretiser
+TimeValues(t) == [nbf |-> IF t.nbf = "missing" THEN "missing" ELSE Val(t.nbf),
+                  base |-> Val(Base(t)),
+                  iat |-> IF t.iat \in {"missing", "later", "future"} THEN t.iat ELSE Val(t.iat),
+                  exp |-> CASE t.life = "missing" -> "missing"
+                            [] t.life \in {"str-1h", "str-1e10"} -> "relstr:" \o Val(LifeLabel(t))
+                            [] t.life \in {"rfc-1h", "rfc-1e10"} -> "relrfc:" \o Val(LifeLabel(t))
+                            [] t.life \in {"abs-2^63-1", "abs-2^63", "abs-1e30"} -> "abs:" \o Val(t.life)
+                            [] t.life = "abs-0" -> "abs:0" [] t.life = "abs-0.5" -> "abs:0.5"
+                            [] OTHER -> "rel:" \o Val(t.life)]
 Dom == [
     shape  |-> {"bearer", "bearer-lower", "absent", "empty", "scheme-only", "basic", "nospace", "extra-field", "dup-garbage-first"},
     ser    |-> {"compact", "flattened", "general1", "general0", "general2af", "general2uf"},
@@ -180,12 +257,13 @@ Dom == [
     iss    |-> {"ok", "other-user", "unknown", "missing"},
     sub    |-> {"ok", "empty", "missing"},
     jti    |-> {"uuid", "text", "missing"},
-    life   |-> {"ok", "long"},
-    time   |-> {"now", "expired", "future", "iat-after-nbf", "no-iat", "no-nbf", "no-exp"},
+    nbf    |-> {"60s", "-1h", "60s+half", "2h", "48h", "1y", "epoch", "1e10", "2^63ns+", "missing"},   \* now - nbf
+    iat    |-> {"0", "later", "future", "1h", "48h", "1e10", "missing"},                                \* nbf - iat
+    life   |-> ({Scale[i].l : i \in 1..Len(Scale)} \ {"60s", "60s+half", "epoch"}) \cup {"missing", "str-1h", "str-1e10", "rfc-1h", "rfc-1e10", "abs-0", "abs-0.5"},  \* exp - nbf
     len    |-> {"ok", "long"} ]
 Attrs == DOMAIN Dom
 Default == [shape |-> "bearer", ser |-> "compact", alg |-> "ed25519/EdDSA", signer |-> "authorised", hdr |-> "none",
-            aud |-> "ok", iss |-> "ok", sub |-> "ok", jti |-> "uuid", life |-> "ok", time |-> "now", len |-> "ok"]
+            aud |-> "ok", iss |-> "ok", sub |-> "ok", jti |-> "uuid", nbf |-> "60s", iat |-> "0", life |-> "1h", len |-> "ok"]
 Deviate(T) == T \cup UNION {UNION {{[t EXCEPT ![a] = v] : v \in Dom[a]} : a \in Attrs} : t \in T}
 CoreTokens == {Default,
                [Default EXCEPT !.shape = "absent"],
@@ -194,11 +272,13 @@ CoreTokens == {Default,
                [Default EXCEPT !.ser = "general2af"],
                [Default EXCEPT !.ser = "general2uf"],
                [Default EXCEPT !.alg = "none"],
-               [Default EXCEPT !.time = "expired"],
+               [Default EXCEPT !.nbf = "48h"],       \* expired
+               [Default EXCEPT !.life = "1e10"],     \* expires in 317 years
                [Default EXCEPT !.iss = "other-user"]}
 Tokens == CASE TokenDefects = 0 -> CoreTokens
             [] TokenDefects = 1 -> Deviate({Default})
-            [] OTHER -> Deviate(Deviate({Default}))
+            [] TokenDefects = 2 -> Deviate(Deviate({Default}))
+            [] OTHER -> {[Default EXCEPT !.nbf = a, !.iat = b, !.life = c] : a \in Dom.nbf, b \in Dom.iat, c \in Dom.life}
 
 \* --- the property's own notion of a valid credential (three-valued: the statement does not talk about every attribute)
 AllowedFit == {"ed25519/EdDSA", "p256/ES256", "p384/ES384", "p521/ES512", "rsa/RS512", "rsa/PS512"}
@@ -211,12 +291,13 @@ InvalidToken(t) ==
     \/ t.iss \in {"other-user", "unknown", "missing"}
     \/ t.sub \in {"empty", "missing"}
     \/ t.jti \in {"text", "missing"}
-    \/ t.life = "long"
-    \/ t.time \in {"expired", "future", "no-exp"}
+    \/ t.life = "missing"                                               \* unbounded lifetime
+    \/ ~NbfReached(t) \/ ~NotExpired(t)                                  \* not (nbf <= now < exp)
+    \/ TooLong(t) /\ (t.nbf # "missing" \/ t.iat \in {"0", "1h", "48h", "1e10"})   \* exp later than the bound after its start
 ValidToken(t) ==
     /\ t.shape \in {"bearer", "bearer-lower"} /\ t.ser = "compact" /\ t.alg \in AllowedFit
     /\ t.signer \in {"authorised", "authorised-kid-thumb"} /\ t.hdr = "none" /\ t.aud \in {"ok", "array-ok"}
-    /\ t.iss = "ok" /\ t.sub = "ok" /\ t.jti = "uuid" /\ t.life = "ok" /\ t.time = "now" /\ t.len = "ok"
+    /\ t.iss = "ok" /\ t.sub = "ok" /\ t.jti = "uuid" /\ t.nbf = "60s" /\ t.iat = "0" /\ t.life \in {"1h", "2h", "24h"} /\ t.len = "ok"
 Validity(t) == IF InvalidToken(t) THEN "no" ELSE IF ValidToken(t) THEN "yes" ELSE "unspecified"
 \* the attributes whose value alone makes the credential invalid (names the cause in a violation signature)
 Why(t) == {a \in Attrs : InvalidToken([Default EXCEPT ![a] = t[a]])}
@@ -297,6 +378,7 @@ Guard == /\ phase = "guard"
 Extract == /\ phase = "extract"
            /\ IF req.tok.shape \in {"bearer", "bearer-lower", "dup-garbage-first"} THEN Next1("secure") ELSE Deny
 
+UnparsableExp == {"abs-2^63-1", "abs-2^63", "abs-1e30"}   \* refused (confirmed by the real verdicts: no drift)
 AcceptableAlg(a) == a \in AllowedFit \cup {"p384/ES256"}
 NSig(t) == CASE t.ser = "general0" -> 0 [] t.ser \in {"general2af", "general2uf"} -> 2 [] OTHER -> 1
 \* credentialIsSecure
@@ -318,14 +400,31 @@ Verify == /\ phase = "verify"
                 /\ req.tok.ser \notin {"flattened", "general2af"}
              THEN Next1("validate") ELSE Deny
 
-\* jwt.Validate(WithAudience)
+\* jwt.Validate(WithAudience): exp, nbf, iat against the clock (NumericDates are truncated to whole seconds by jwx; a
+\* NumericDate may be given as a JSON string; exp = 0 is taken for "not set")
 Validate == /\ phase = "validate"
-            /\ IF req.tok.time \notin {"expired", "future"} /\ req.tok.aud \in {"ok", "array-ok"} THEN Next1("best") ELSE Deny
+            /\ IF /\ NotExpired(req.tok) \/ (ZeroExpNeverExpires /\ ExpIsEpoch(req.tok))
+                  /\ NbfReached(req.tok) /\ req.tok.iat # "future"
+                  /\ req.tok.life \notin UnparsableExp /\ ~NegativeDate(req.tok)
+                  /\ req.tok.aud \in {"ok", "array-ok"}
+               THEN Next1("best") ELSE Deny
 
-\* bestPracticesCheck
+\* bestPracticesCheck: all claims present, exp not After nbf + 1470 min and iat + 1470 min, iat not After nbf
+IatThreshold(g) == CASE g = "1h" -> "bound-1h" [] g \in {"48h", "1e10"} -> "-1e10" [] OTHER -> "bound+half"
+\* truncation: nbf = now - 60.5 s and a lifetime of 88200.5 s are 88201 whole seconds apart
+LifeEff(t) == IF t.nbf = "60s+half" /\ t.life = "bound+half" THEN "bound+1s" ELSE LifeLabel(t)
+\* exp = 0: exp - nbf = (now - nbf) - now exceeds the bound iff nbf lies before the epoch; exp - iat likewise
+ZeroExceedsNbf(t) == Rank(Base(t)) > Rank("epoch")
+ZeroExceedsIat(t) == \/ req.tok.iat = "1e10"
+                     \/ req.tok.iat = "48h" /\ Rank(Base(t)) >= Rank("epoch")
+                     \/ req.tok.iat \in {"0", "1h"} /\ Rank(Base(t)) > Rank("epoch")
 Best == /\ phase = "best"
-        /\ IF /\ req.tok.time \notin {"no-iat", "no-nbf", "no-exp", "iat-after-nbf"}
-              /\ req.tok.iss # "missing" /\ req.tok.sub = "ok" /\ req.tok.jti = "uuid" /\ req.tok.life = "ok"
+        /\ IF /\ req.tok.nbf # "missing" /\ req.tok.iat # "missing" /\ req.tok.life # "missing"
+              /\ IF ExpAbsZero(req.tok) THEN ~ZeroExceedsNbf(req.tok) /\ ~ZeroExceedsIat(req.tok)
+                 ELSE /\ Rank(LifeEff(req.tok)) <= Rank("bound+half")                      \* sub-second part is dropped
+                      /\ Rank(LifeEff(req.tok)) <= Rank(IatThreshold(req.tok.iat))
+              /\ req.tok.iat # "later"
+              /\ req.tok.iss # "missing" /\ req.tok.sub = "ok" /\ req.tok.jti = "uuid"
            THEN Next1("issuer") ELSE Deny
 
 Issuer == /\ phase = "issuer"
@@ -357,7 +456,7 @@ ListenerSeparation == (req.l.cfg = "diff" /\ req.l.port = "public") => reached \
 Bad == ~AuthSound \/ ~FailureIs401 \/ ~ListenerSeparation
 Emit == (Done /\ Gen) =>
         PrintT(ToJson([cfg |-> req.l.cfg, port |-> req.l.port, form |-> req.target.form, variant |-> req.target.variant,
-                       route |-> req.target.route, method |-> M, target |-> T, tok |-> req.tok,
-                       validity |-> Validity(req.tok), why |-> Why(req.tok), guarded |-> Guarded(M, T), matched |-> matched,
+                       route |-> req.target.route, method |-> M, target |-> T, tok |-> req.tok, tv |-> TimeValues(req.tok),
+                       validity |-> Validity(req.tok), why |-> Why(req.tok), expzero |-> ExpIsEpoch(req.tok), guarded |-> Guarded(M, T), matched |-> matched,
                        status |-> status, reached |-> reached, user |-> user, bad |-> Bad]))
 =============================================================================
